@@ -379,7 +379,8 @@ def main_check(prop: str, tier: str, seed: int, replay: Optional[str]) -> int:
             mod.translate(ctx)
         # 2. Lean: build theorems + driver, audit
         built = ctx.lean_build(mod.LEAN_TARGETS)
-        ctx.lean_grep(mod.PROPS)
+        for _m in ([mod.PROPS] if isinstance(mod.PROPS, str) else list(mod.PROPS)):
+            ctx.lean_grep(_m)
         if built:
             ctx.lean_audit(mod.AUDIT)
             if tier == 'thorough' and getattr(mod, 'LEANCHECK', None):
